@@ -15,7 +15,7 @@ import (
 type bCall string
 
 var builderAlphabet = []bCall{
-	"checks:pre", "checks:cont", "checks:post", "checks:bypass", "checks:deferred", "checks:unknown", "checks:nil", "checks:nilaction", "checks:withaction",
+	"checks:pre", "checks:cont", "checks:post", "checks:bypass", "checks:deferred", "checks:unknown", "checks:kind99", "checks:nil", "checks:nilaction", "checks:withaction",
 	"block", "block:noname", "block:nodescr",
 	"seq", "seq:nil", "seq:noname", "seq:nodescr", "seq:withaction",
 	"action", "action:nil", "action:noname", "action:nodescr", "action:noplugin",
@@ -42,6 +42,8 @@ func applyReal(b *builder.BuildPlan, c bCall, n int) (plan *workflow.Plan, perr 
 		b.AddChecks(builder.DeferredChecks, &workflow.Checks{})
 	case "checks:unknown":
 		b.AddChecks(builder.CTUnknown, &workflow.Checks{})
+	case "checks:kind99":
+		b.AddChecks(builder.ChecksType(99), &workflow.Checks{}) // a value outside the declared constants
 	case "checks:nil":
 		b.AddChecks(builder.PreChecks, nil)
 	case "checks:nilaction":
@@ -170,7 +172,7 @@ func (r *refBuilder) apply(c bCall, n int) (misuse bool) {
 		kind := strings.TrimPrefix(string(c), "checks:")
 		var ch *workflow.Checks
 		switch kind {
-		case "nil", "nilaction", "unknown":
+		case "nil", "nilaction", "unknown", "kind99":
 			return bad()
 		case "withaction":
 			kind = "post"
@@ -517,7 +519,7 @@ func init() {
 	register(&PropDef{
 		ID:    "C20",
 		Level: "exploration",
-		Rule: "breadth-first enumeration of ALL call sequences over 26 call variants (AddChecks x 9 incl. nil / nil action / unknown kind / pre-filled, AddBlock x 3, AddSequence x 5, AddAction x 5, Up, Plan, Reset ok/blank) up to depth 6 (8): correct prefixes are merged by the abstract state of a reference builder " +
+		Rule: "breadth-first enumeration of ALL call sequences over 27 call variants (AddChecks x 10 incl. nil / nil action / unknown kind (the declared zero value and a value outside the constants) / pre-filled, AddBlock x 3, AddSequence x 5, AddAction x 5, Up, Plan, Reset ok/blank) up to depth 6 (8): correct prefixes are merged by the abstract state of a reference builder " +
 			"(cursor chain with filled check slots and child counts capped at 2, emitted flag), after the first misuse every extension by 2 (3) further calls is enumerated; each sequence runs on a fresh real builder and on the reference interpreter, compared after every call " +
 			"(Err(), Plan() result, deep equality with the directly constructed plan, panics); distinct_nontrivial = distinct (abstract reference state reached, last call) pairs among the evaluated sequences",
 		Assumptions: []string{"stickiness is checked for 2 (3) calls after the first misuse, not for arbitrarily long suffixes", "child counts above 2 are merged"},
